@@ -63,7 +63,8 @@ PROPS = {
         level='proof',
         units=['path:parser::PushParser::parse_program', 'path:parser::PushParser::parse_vector', 'path:parser::PushParser::rec_push', 'path:stack::PushStack::push_front', 'path:stack::PushStack::bottom_mut', 'path:stack::PushStack::push'],
         explanation='for EVERY input string: parse_program / parse_vector / rec_push never panic (the depth counter cannot underflow or overflow, the three `token[k..]` slices are taken only after '
-                    '`starts_with` of an ASCII prefix of k bytes, rec_push recurses on a strictly smaller depth), terminate, and change nothing but the EXEC stack (only_exec_changed). '
+                    '`starts_with` of an ASCII prefix of k bytes, rec_push recurses on a strictly smaller depth), terminate, and change nothing but the EXEC stack (only_exec_changed); rec_push puts the item at the FRONT of the list that is open at the given depth '
+                    '(relation rec_pushed: so tokens keep their left-to-right order and nesting) and fails exactly when no list is open at that depth. '
                     'The str operations are read through the R15 wrappers (bodies = the original expressions): what split_whitespace / split / strip_suffix / parse return is uninterpreted',
         not_decided=['tree shape (same nesting, same order, first token on top), the classification cascade and "a malformed vector literal is dropped without disturbing its neighbours": they depend on what '
                      'split_whitespace / split / parse / strip_suffix return, which no installed verifier can reason about (Verus: no str content reasoning; Kani on parse_program with 3 symbolic bytes did not finish in 10 minutes)',
